@@ -169,7 +169,8 @@ def w_geometry(cfg, tier):
         return [bool(x) for x in st]
     lt.validate_paths_at(col, cfg, ps, ev, qc, real_flip,
                          lambda v, sub: [bool(lt.concretise(bool_term(c), sub)) for c in v],
-                         extra_sub=[(b, z3.BoolVal(False)) for b in S])
+                         extra_sub=[(b, z3.BoolVal(False)) for b in S],
+                         impure_oid='C10/flip_edge/is-a-function-of-the-edge-and-state')
     # specification: row i toggles iff stabilizer i has an X on the edge qubit (anticommutes with Z there)
     spec = []
     for i in range(m):
@@ -433,6 +434,14 @@ def replay(path):
     with open(path) as f:
         d = json.load(f)
     w, oid, cfg = d['witness'], d['oid'], d['config']
+    if isinstance(w, dict) and w.get('impure'):
+        # the real function returned two different values for the same argument: re-run the worker in this fresh
+        # interpreter; the obligation must be reported again
+        res = worker(cfg)
+        bad = any(o['oid'] == oid and o['verdict'] == 'sat' for o in res['obs'])
+        print('impure function at', w.get('location'))
+        print('REPLAY', 'reproduced' if bad else 'not-reproduced', oid, cfg)
+        return 0
     from panqec.error_models import PauliErrorModel
     import panqec.decoders.sweepmatch._sweep_decoder_3d as s3
     import panqec.decoders.sweepmatch._rotated_sweep_decoder as rs
